@@ -225,7 +225,7 @@ impl Sink {
         else { self.stats.input_file_formats.2 += 1; let mut r2 = Rng::new(h); let b = text::respace(&mut r2, pretty.as_bytes(), false); (text::esc_line(&String::from_utf8_lossy(&b)), b) };
       if !tag.is_empty() {
         let path = self.tmp.clone();
-        if std::fs::write(&path, &bytes).is_ok() {
+        if text::put_file(&path, &bytes) {
           let r3 = catch_unwind(AssertUnwindSafe(|| crate::layout_loading::load_layout_from_file(&path)));
           let o3 = match r3 { Err(_) => Outcome::Panic, Ok(Err(e)) => Outcome::Err(e), Ok(Ok(l3)) => Outcome::Ok(l3) };
           let same = match (&o, &o3) {
@@ -262,7 +262,15 @@ impl Sink {
           // write_layout_to_global_config does) and read with layout_loading::load_layout_from_file
           {
             let path = self.tmp.clone();
-            let wrote = std::fs::File::create(&path).ok().and_then(|f| serde_json::to_writer_pretty(std::io::BufWriter::new(f), l).ok());
+            // (opened without O_TRUNC and cut to length afterwards: see text::put_file)
+            let wrote = std::fs::OpenOptions::new().write(true).create(true).open(&path).ok().and_then(|f| {
+              use std::io::Seek;
+              let mut w = std::io::BufWriter::new(f);
+              serde_json::to_writer_pretty(&mut w, l).ok()?;
+              let mut f = w.into_inner().ok()?;
+              let n = f.stream_position().ok()?;
+              f.set_len(n).ok()
+            });
             if wrote.is_some() {
               let r3 = catch_unwind(AssertUnwindSafe(|| crate::layout_loading::load_layout_from_file(&path)));
               let o3 = match r3 { Err(_) => Outcome::Panic, Ok(Err(e)) => Outcome::Err(e), Ok(Ok(l3)) => Outcome::Ok(l3) };
@@ -827,6 +835,9 @@ pub fn main(args: &[String]) -> i32 {
   let names: Vec<(String, String)> = keys.iter().map(|k| (format!("{}", k), serde_json::to_value(k).ok().and_then(|v| v.as_str().map(|s| s.to_string())).unwrap_or_default())).collect();
   let strs = special_strings();
 
+  // --only-text: the text stream alone (used to stress the JSON text layer with a large --scale)
+  let only_text = a.contains_key("only-text");
+  if !only_text {
   // (b) corpus
   for (tag, v) in corpus(&repo) { let _ = tag; sink.case("builtin", &v, None, &mut rng); }
   // targeted families
@@ -896,10 +907,11 @@ pub fn main(args: &[String]) -> i32 {
   }
   // (e) single-scalar substitutions in row and repeat names
   subst_blocks(&mut sink, &mut rng, thorough);
+  }
   // (f) the JSON text layer: generated texts through the real serde_json readers (and layout files through
   // load_layout_from_file); a random stream of its own, derived from the same seed
   let tstats = {
-    let mut lrng = Rng::new(seed ^ 0x6c61_796f_7574);
+    let mut lrng = Rng::new(Rng::new(seed ^ 0x6c61_796f_7574).next());
     let layouts: Vec<Layout> = (0..64).map(|_| gen_basic(&mut lrng, &keys)).collect();
     // texts of shorthand layouts (pretty and compact) as the raw material of the malformed-file stream
     let mut bases: Vec<Vec<u8>> = vec![];
@@ -956,8 +968,34 @@ pub fn main(args: &[String]) -> i32 {
 pub fn replay_main(args: &[String]) -> i32 {
   let a = args_map(args);
   let path = match a.get("json") { Some(p) => p.clone(), None => { eprintln!("usage: loader-replay --json FILE"); return 2; } };
-  let text = std::fs::read_to_string(&path).expect("cannot read json file");
+  // the file itself, as the service would read it
+  {
+    let r = catch_unwind(AssertUnwindSafe(|| crate::layout_loading::load_layout_from_file(&path)));
+    match r {
+      Err(_) => println!("load_layout_from_file(this file): PANIC"),
+      Ok(Err(e)) => println!("load_layout_from_file(this file): Err({})", e),
+      Ok(Ok(l)) => { println!("load_layout_from_file(this file): Ok, {} mappings", l.mappings.len()); for m in l.mappings.iter().take(12) { println!("  {}", mapping_line(m)); } }
+    }
+  }
+  let text = match std::fs::read(&path) { Ok(b) => String::from_utf8_lossy(&b).to_string(), Err(e) => { println!("cannot read the file: {}", e); return 0; } };
   let v: Value = match serde_json::from_str(&text) { Ok(v) => v, Err(e) => { println!("serde_json::from_str: {}", e); return 0; } };
+  // the same Value as a pretty and as a compact file
+  for (name, t) in [("pretty", serde_json::to_string_pretty(&v).unwrap_or_default()), ("compact", serde_json::to_string(&v).unwrap_or_default())] {
+    let p2 = format!("{}.{}.tmp", path, name);
+    if text::put_file(&p2, t.as_bytes()) {
+      let r = catch_unwind(AssertUnwindSafe(|| crate::layout_loading::load_layout_from_file(&p2)));
+      let mem = real_load(&v);
+      let verdict = match (r, &mem) {
+        (Err(_), _) => "PANIC".to_string(),
+        (Ok(Err(e)), Outcome::Err(_)) => format!("Err({}) as in memory", e),
+        (Ok(Err(e)), _) => format!("Err({}), DIFFERENT from the in-memory load", e),
+        (Ok(Ok(l)), Outcome::Ok(m)) => if l.mappings == m.mappings { format!("Ok, {} mappings, identical to the in-memory load", l.mappings.len()) } else { format!("Ok, {} mappings, DIFFERENT from the in-memory load", l.mappings.len()) },
+        (Ok(Ok(l)), _) => format!("Ok, {} mappings, DIFFERENT from the in-memory load", l.mappings.len()),
+      };
+      println!("load_layout_from_file({} text of this value): {}", name, verdict);
+      let _ = std::fs::remove_file(&p2);
+    }
+  }
   let mut rng = Rng::new(1);
   let o = real_load(&v);
   match &o {
